@@ -2,7 +2,7 @@
    Property theorems only; each is closed by lemmas of Proofs/Ldns*.v.
    The model is of the REPAIRED code (two fix: commits on dns.go); the *_orig definitions are the
    unchanged code and carry the ..._refuted witnesses. *)
-From GP Require Import Base N6Lib LdnsModel LdnsDec LdnsSer LdnsRt.
+From GP Require Import Base N6Lib LdnsModel LdnsDec LdnsSer LdnsRt LdnsIdem.
 Open Scope Z_scope.
 
 (* ------------------------------------------------------------------ C19 *)
@@ -160,6 +160,17 @@ Print Assumptions C07_dns_junk_free.
 Theorem C07_dns_wire : forall d payload fix_ csum junk, serialize d payload fix_ csum junk = ser_spec d payload fix_.
 Proof. exact serialize_eq_spec. Qed.
 Print Assumptions C07_dns_wire.
+
+(* a successful SerializeTo is repeatable: serializing the layer it left behind (FixLengths stored the
+   counts and every DataLength in it) gives the same bytes again and leaves the layer unchanged *)
+Theorem C07_dns_repeat : forall d payload fix_ csum junk bytes d',
+  serialize d payload fix_ csum junk = (Ok bytes, d') ->
+  forall junk', serialize d' payload fix_ csum junk' = (Ok bytes, d').
+Proof.
+  intros d payload fix_ csum junk bytes d' H junk'. rewrite serialize_eq_spec in H. rewrite serialize_eq_spec.
+  exact (ser_spec_repeat d payload fix_ bytes d' H).
+Qed.
+Print Assumptions C07_dns_repeat.
 
 Example C07_dns_nonvacuous :
   let d := fst (fst (decode_into dns_fresh
